@@ -242,7 +242,9 @@ PROPS = {
         "contracts": ["a_common", "annotate"],
         "functions": ["annotate.SpanUpdater.__init__", "annotate.SpanUpdater.update", "utils.maybe_balance_style_tags", "annotate.annotate_citations"],
         "assumptions": ["E-DIFF for both diff engines; E-BISECT", "clause A is proved for 'unchecked' mode without a source text (step clause emits_exact)",
-                        "clause B: translated offsets stay within the source (in_range) is proved for both bisect variants; monotonicity of the translation is checked by the bounded stand-in only"],
+                        "clause B: translated offsets stay within the source (in_range) and the translation is MONOTONE -- both proved: update's postcondition `value` gives the exact "
+                        "result from the class invariant (ranges ordered in both texts: clauses below/mono of upd_clauses, established by __init__), and the closed lemmas "
+                        "update_monotone_{00,11,01,10} prove o1 <= o2 => update(o1) <= update(o2) for every pairing of bisect variants over the functional contract F_update"],
         "not_covered": ["clause C (each annotation encloses exactly the source characters of its plain span) needs minimality/uniqueness of the diff and is bounded (stand-in) only"],
     },
     "C11": {
